@@ -99,7 +99,10 @@ def draw_func_stalls(rng, funcs=None):
 
 def install_func_stalls(sim, stalls):
     for st in stalls or ():
-        sim.func_stalls.setdefault(st["func"], []).append([st["call"], st["line"], st["dur"]])
+        if st.get("after") is not None:
+            sim.func_stalls.setdefault(st["func"], []).append([None, st["line"], st["dur"], st["after"] + st.get("t0", 0.0)])
+        else:
+            sim.func_stalls.setdefault(st["func"], []).append([st["call"], st["line"], st["dur"]])
 
 
 def draw_sched(rng, line=True):
@@ -321,7 +324,7 @@ class WorldA(object):
         self.by_rec = self.call("bystander", body)
         return self.by_rec
 
-    def start_consumer(self, name="consumer"):
+    def start_consumer(self, name="consumer", on_msg=None):
         # a consumer belongs to ONE connection: it keeps calling get_message() on the association
         # that was current when it started (Diameter.get_message() is a one-line delegation to it);
         # otherwise a consumer that outlives an eager restart would start waiting on the NEXT
@@ -336,6 +339,8 @@ class WorldA(object):
                     # get_message returns None once the association stops
                     return "stopped"
                 self.delivered.append(m)
+                if on_msg is not None:
+                    on_msg(m)
         rec = self.call(name, loop)
         self.consumers.append(rec)
         return rec
